@@ -216,7 +216,9 @@ def build(tier, repo):
     r6 = chk.rule("C06-R6", "the KKT factories behind the solver names assemble the same reduced matrix: symmetrisation after the last "
                             "lower-triangular contribution, work matrices fully redefined per factorisation",
                   "every KKT solver name the entry point accepts gives the same answer")
-    from .C07 import factory_state_rule
+    from .C07 import factory_state_rule, exclusive_contribution_rule, paired_calls_rule
     factory_state_rule(r6, w)
+    exclusive_contribution_rule(r6, w)
+    paired_calls_rule(r6, w)
     r6.require(6)
     return chk
